@@ -34,7 +34,9 @@ import (
 	"github.com/ozontech/seq-db/logger"
 	"github.com/ozontech/seq-db/mappingprovider"
 	pb "github.com/ozontech/seq-db/pkg/storeapi"
+	proxypb "github.com/ozontech/seq-db/pkg/seqproxyapi/v1"
 	"github.com/ozontech/seq-db/proxy/search"
+	"github.com/ozontech/seq-db/proxyapi"
 	"github.com/ozontech/seq-db/proxy/stores"
 	"github.com/ozontech/seq-db/seq"
 	"github.com/ozontech/seq-db/storeapi"
@@ -120,6 +122,8 @@ var plainKeys = []keyForm{{`"a"`, "a"}, {`"b"`, "b"}, {`"c"`, "c"}, {`"msg"`, "m
 var fancyKeys = []keyForm{{`"k\"q"`, `k"q`}, {`"tab\tx"`, "tab\tx"}, {`"sl\/ash"`, "sl/ash"}, {`"bs\\x"`, `bs\x`}, {`"unié"`, "unié"},
 	{`"é"`, "é"}, {`"emo😀"`, "emo😀"}, {`"😀pair"`, "😀pair"}, {`""`, ""}, {`"<&>"`, "<&>"}, {`"nl\nx"`, "nl\nx"}, {`"Az"`, "Az"}, {`"日本"`, "日本"},
 	// characters that JSON escapes as \u00XX or leaves raw, and Go's strconv.Quote writes as \x01 \a \v \x7f \U000e0001
+	// names that differ only by surrounding white space (and the empty name is above): nothing may normalise them
+	{`" a"`, " a"}, {`"a "`, "a "}, {`"\ta"`, "\ta"}, {`" "`, " "}, {`" level "`, " level "},
 	{`"c\u0001x"`, "c\x01x"}, {`"bel\u0007"`, "bel\a"}, {`"vt\u000b"`, "vt\v"}, {"\"del\x7f\"", "del\x7f"},
 	{"\"tag\U000E0001\"", "tag\U000E0001"}, {`"\udb40\udc01esc"`, "\U000E0001esc"}, {`"ff\u000c"`, "ff\f"}}
 
@@ -463,6 +467,15 @@ func genDoc(r *vh.RNG) ([]byte, []keyForm) {
 	}
 	var keys []keyForm
 	seen := map[string]bool{}
+	if r.Intn(4) == 0 { // the white-space family next to the trimmed names
+		for _, k := range []keyForm{{`"a"`, "a"}, {`" a"`, " a"}, {`"a "`, "a "}, {`"\ta"`, "\ta"}, {`" "`, " "}, {`""`, ""}, {`"level"`, "level"}, {`" level "`, " level "}} {
+			if r.Intn(3) > 0 {
+				seen[k.name] = true
+				keys = append(keys, k)
+			}
+		}
+		n = max(n, len(keys))
+	}
 	for len(keys) < n {
 		var k keyForm
 		if len(seen) >= len(pool)-2 || r.Intn(4) == 0 {
@@ -671,7 +684,24 @@ type testStore struct {
 	docs []stored
 }
 
+// genBigDoc: a document above 128 KiB (the decoder of the pooled field filter grows with it)
+func genBigDoc(r *vh.RNG) ([]byte, []keyForm) {
+	keys := []keyForm{{`"a"`, "a"}, {`"big"`, "big"}, {`"level"`, "level"}, {`"msg"`, "msg"}}
+	var b strings.Builder
+	b.WriteString(`{"a":` + fmt.Sprint(r.Intn(1000)) + `,"big":"`)
+	n := 200_000 + r.Intn(200_000)
+	for i := 0; i < n; i++ {
+		b.WriteByte(byte('a' + (i*7+n)%26))
+	}
+	b.WriteString(`","level":"info","msg":"m` + fmt.Sprint(r.Intn(1000)) + `"}`)
+	return []byte(b.String()), keys
+}
+
 func buildStore(r *vh.RNG, nDocs int) (*testStore, error) {
+	return buildStoreBig(r, nDocs, 0)
+}
+
+func buildStoreBig(r *vh.RNG, nDocs, nBig int) (*testStore, error) {
 	dir, err := os.MkdirTemp("", "verif-c20-")
 	if err != nil {
 		return nil, err
@@ -689,8 +719,11 @@ func buildStore(r *vh.RNG, nDocs int) (*testStore, error) {
 	st := &testStore{g: g, fm: fm, dir: dir}
 	for part := 0; part < 2; part++ {
 		dp := frac.NewDocProvider()
-		for i := 0; i < nDocs/2; i++ {
+		for i := 0; i < nDocs/2+nBig; i++ {
 			d, keys := genDoc(r)
+			if i >= nDocs/2 {
+				d, keys = genBigDoc(r)
+			}
 			id := seq.ID{MID: seq.MID(1_700_000_000_000 + uint64(len(st.docs))), RID: seq.RID(1000 + uint64(r.Intn(1000)))}
 			st.docs = append(st.docs, stored{id, d, keys})
 			dp.Append(d, nil, id, seq.Tokens("_all_:", "service:c20"))
@@ -750,7 +783,7 @@ func checkProjection(st *stored, out []byte, fields []string, allow, filtered bo
 func concurrentChild(seed int64, thorough bool) {
 	logger.SetLevel(zap.FatalLevel)
 	r := vh.NewRNG(seed)
-	st, err := buildStore(r.Fork(), 160)
+	st, err := buildStoreBig(r.Fork(), 160, 2)
 	if err != nil {
 		fmt.Println("child-error", err)
 		os.Exit(3)
@@ -779,12 +812,21 @@ func concurrentChild(seed int64, thorough bool) {
 		return res, nil
 	}
 	// warm-up: sequential fetches with and without a filter
+	var bigIdx []int
+	for i := range st.docs {
+		if len(st.docs[i].doc) > 128*1024 {
+			bigIdx = append(bigIdx, i)
+		}
+	}
 	for i := 0; i < 4; i++ {
 		fetch([]seq.ID{st.docs[i].id}, job{fields: []string{"a"}, allow: i%2 == 0, filtered: i < 3})
 	}
-	workers, iters := 6, 120
+	for _, bi := range bigIdx { // history: filtered fetches that decoded a document above 128 KiB
+		fetch([]seq.ID{st.docs[bi].id}, job{fields: []string{"a", "msg"}, allow: true, filtered: true})
+	}
+	workers, iters := 16, 60
 	if thorough {
-		workers, iters = 8, 600
+		workers, iters = 32, 200
 	}
 	var mu sync.Mutex
 	var firstBad string
@@ -804,7 +846,10 @@ func concurrentChild(seed int64, thorough bool) {
 				seen := map[int]bool{}
 				for len(ids) < n {
 					k := wr.Intn(len(st.docs))
-					if seen[k] {
+					if len(ids) == 0 && len(bigIdx) > 0 && wr.Intn(6) == 0 { // now and then a document above 128 KiB
+						k = bigIdx[wr.Intn(len(bigIdx))]
+					}
+					if seen[k] || (len(st.docs[k].doc) > 128*1024 && len(ids) > 0) {
 						continue
 					}
 					seen[k] = true
@@ -853,7 +898,7 @@ func concurrentChild(seed int64, thorough bool) {
 }
 
 func concurrentOracle(o vh.Opts, rep *vh.Report) *vh.Oracle {
-	orc := vh.NewOracle("fields.concurrent", "child process: after sequential warm-up fetches, 6 (thorough: 8) goroutines fetch 20-80 documents each from the same storeapi.GrpcV1 at the same time, 120 (600) times, each with its own field list and mode or with no filter at all (every third worker); every response must be its OWN expected projection (or the stored bytes), no error, process alive - only schedule-independent facts are asserted; non-trivial = all")
+	orc := vh.NewOracle("fields.concurrent", "child process: after sequential warm-up fetches (two of them filtered fetches of documents above 128 KiB), 16 (thorough: 32) goroutines fetch 20-80 documents each (now and then one above 128 KiB) from the same storeapi.GrpcV1 at the same time, 60 (200) times, each with its own field list and mode or with no filter at all (every third worker); every response must be its OWN expected projection (or the stored bytes), no error, process alive - only schedule-independent facts are asserted; non-trivial = all")
 	rounds := o.Pick(2, 5)
 	for k := 0; k < rounds; k++ {
 		seed := o.Seed*1000 + int64(k)
@@ -901,6 +946,108 @@ func concurrentOracle(o vh.Opts, rep *vh.Report) *vh.Oracle {
 				}
 			}
 			rep.Violate(vh.Violation{Site: "storeapi/grpc_fetch.go:doFetch", Class: class, What: fmt.Sprintf("%s: %s (%v)", what, first, runErr), Replay: []string{line}})
+		}
+	}
+	return orc
+}
+
+type proxyFetchStream struct {
+	grpc.ServerStream
+	ctx  context.Context
+	docs []*proxypb.Document
+}
+
+func (s *proxyFetchStream) Context() context.Context     { return s.ctx }
+func (s *proxyFetchStream) SetHeader(metadata.MD) error  { return nil }
+func (s *proxyFetchStream) SendHeader(metadata.MD) error { return nil }
+func (s *proxyFetchStream) SetTrailer(metadata.MD)       {}
+func (s *proxyFetchStream) Send(d *proxypb.Document) error {
+	s.docs = append(s.docs, &proxypb.Document{Id: d.Id, Data: append([]byte{}, d.Data...)})
+	return nil
+}
+
+// proxyFetchOracle: the real proxy Fetch handler (proxyapi.grpcV1.Fetch -> search.Ingestor.Documents -> store Fetch)
+// with a fields filter whose names are taken literally: empty, with leading / trailing blanks or tabs, next to
+// documents that have exactly such keys and their trimmed twins.
+func proxyFetchOracle(o vh.Opts, r *vh.RNG, rep *vh.Report, g *storeapi.GrpcV1, docs []stored) *vh.Oracle {
+	orc := vh.NewOracle("fields.proxyfetch", "real proxyapi Fetch handler over search.Ingestor and the in-process store with FieldsFilter names \"\", \" a\", \"a \", \"\\ta\", \" \", \" level \" and their trimmed twins (documents hold both), allow and except, plus ordinary names; every answer is checked like the store-level projection (valid JSON object, exact (name, value) multiset), ids and count as requested; non-trivial = at least one field kept and one removed")
+	empty := &stores.Stores{}
+	si := search.NewIngestor(search.Config{HotStores: &stores.Stores{Shards: [][]string{{"s0"}}}, HotReadStores: empty, ReadStores: empty, WriteStores: empty},
+		map[string]pb.StoreApiClient{"s0": &localStore{g: g}})
+	api := proxyapi.VerifNewGrpcV1C16T(si, time.Minute, time.Minute)
+	family := []string{"", " a", "a ", "\ta", " ", " level ", "a", "level"}
+	var famDocs []int
+	for i := range docs {
+		for _, k := range docs[i].keys {
+			if k.name == " a" || k.name == "a " || k.name == " " || k.name == "\ta" || k.name == " level " {
+				famDocs = append(famDocs, i)
+				break
+			}
+		}
+	}
+	n := o.Pick(120, 1500)
+	for q := 0; q < n; q++ {
+		var sel []*stored
+		seen := map[int]bool{}
+		for len(sel) < 1+r.Intn(8) {
+			k := r.Intn(len(docs))
+			if len(famDocs) > 0 && r.Bool() {
+				k = famDocs[r.Intn(len(famDocs))]
+			}
+			if !seen[k] {
+				seen[k] = true
+				sel = append(sel, &docs[k])
+			}
+		}
+		var fields []string
+		for j := 1 + r.Intn(3); j > 0; j-- {
+			if r.Intn(4) > 0 {
+				fields = append(fields, family[r.Intn(len(family))])
+			} else if b := sel[r.Intn(len(sel))]; len(b.keys) > 0 {
+				fields = append(fields, b.keys[r.Intn(len(b.keys))].name)
+			} else {
+				fields = append(fields, "no_such_field")
+			}
+		}
+		allow := r.Bool()
+		mode := "except"
+		if allow {
+			mode = "allow"
+		}
+		req := &proxypb.FetchRequest{FieldsFilter: &proxypb.FetchRequest_FieldsFilter{Fields: fields, AllowList: allow}}
+		var idS []string
+		for _, s := range sel {
+			req.Ids = append(req.Ids, s.id.String())
+			idS = append(idS, fmt.Sprintf("%d:%d", uint64(s.id.MID), uint64(s.id.RID)))
+		}
+		line := fmt.Sprintf("proxyfetch seed=%d req=%d %s fields=%s ids=%s", o.Seed, q, mode, namesHex(fields, ","), strings.Join(idS, ","))
+		fs := &proxyFetchStream{ctx: context.Background()}
+		err := api.Fetch(req, fs)
+		bad := ""
+		kept, removed := false, false
+		switch {
+		case err != nil:
+			bad = "proxy fetch failed: " + err.Error()
+		case len(fs.docs) != len(sel):
+			bad = fmt.Sprintf("%d documents for %d ids", len(fs.docs), len(sel))
+		}
+		for i := 0; bad == "" && i < len(sel); i++ {
+			if fs.docs[i].Id != sel[i].id.String() {
+				bad = fmt.Sprintf("position %d carries another id", i)
+				break
+			}
+			if m := checkProjection(sel[i], fs.docs[i].Data, fields, allow, true); m != "" {
+				bad = fmt.Sprintf("position %d: %s", i, m)
+				break
+			}
+			orig, _ := topLevel(sel[i].doc)
+			got, _ := topLevel(fs.docs[i].Data)
+			kept = kept || len(got) > 0
+			removed = removed || len(got) < len(orig)
+		}
+		orc.Case(line, kept && removed, "mode="+mode)
+		if bad != "" {
+			rep.Violate(vh.Violation{Site: "proxyapi/grpc_fetch.go:Fetch", Class: "wrong-projection", What: bad, Replay: []string{line}})
 		}
 	}
 	return orc
@@ -1126,6 +1273,7 @@ func fetchOracle(o vh.Opts, r *vh.RNG, rep *vh.Report) *vh.Oracle {
 		}
 	}
 	rep.AddOracle(searchOracle(o, r, rep, g, docs))
+	rep.AddOracle(proxyFetchOracle(o, r, rep, g, docs))
 	return orc
 }
 
@@ -1173,6 +1321,9 @@ func main() {
 			_, err := fmt.Sscanf(l, "fetch seed=%d req=%d", &seed, &q)
 			if err != nil {
 				_, err = fmt.Sscanf(l, "search seed=%d req=%d", &seed, &q)
+			}
+			if err != nil {
+				_, err = fmt.Sscanf(l, "proxyfetch seed=%d req=%d", &seed, &q)
 			}
 			if err == nil {
 				o.Seed = seed
